@@ -4,6 +4,8 @@
 package actions
 
 import (
+	"strings"
+
 	"github.com/corazawaf/coraza/v3/experimental/plugins/plugintypes"
 	"github.com/corazawaf/coraza/v3/internal/corazawaf"
 	"github.com/corazawaf/coraza/v3/internal/transformations"
@@ -25,7 +27,8 @@ type tFn struct{}
 func (a *tFn) Init(r plugintypes.RuleMetadata, data string) error {
 	// TODO there is a chance that it won't work, it requires tests
 	// none is a special hardcoded transformation, it must remove previous transformations
-	if data == "none" {
+	// (transformation names are case-insensitive)
+	if strings.EqualFold(data, "none") {
 		// remove elements
 		r.(*corazawaf.Rule).ClearTransformations()
 		return nil
